@@ -1473,7 +1473,7 @@ def fresh_seq(name, kind="bytes", maxlen=None, minlen=None):
         c.assume(z3.Length(t) <= maxlen)
     if minlen is not None:
         c.assume(z3.Length(t) >= minlen)
-    return SSeq(t, kind)
+    return SSeq(t, kind, False, maxlen if (maxlen is not None and maxlen <= 16) else None)
 
 
 def fresh_any(name):
@@ -1514,6 +1514,11 @@ def all_bytes(s, pred):
     is evaluated natively."""
     if not is_sym(s):
         return all(pred(b) for b in (s if isinstance(s, (bytes, bytearray)) else map(ord, s)))
+    k = getattr(s, "maxlen", None)
+    if k is not None and k <= 16:
+        # a static length bound is known: finite conjunction instead of a quantifier
+        n = z3.Length(s.term)
+        return mk_bool(z3.And(n <= k, *[z3.Implies(n > q, as_bool_term(pred(SInt(s.term[q])))) for q in range(k)]))
     i = z3.Int(ctx().fresh_name("k"))
     body = as_bool_term(pred(SInt(s.term[i])))
     return SBool(z3.ForAll([i], z3.Implies(z3.And(i >= 0, i < z3.Length(s.term)), body)))
